@@ -136,6 +136,11 @@ cfg["C33"] = {
 
 CAL = 'cluster/calcium'
 cal_stubs = common_stubs + "; context.WithCancel/WithTimeout/WithValue: tree model with cancellation flags (zzverif.Ctx); store.Store: in-harness model (nodes, workloads, recording locks)"
+conc = lambda *pairs: P("VerifConcurrentOps", *[f"a={a},b={b},preempt={k}" for a, b, k in pairs])
+conc_text = ("TWO API calls run concurrently as two goroutines over one world whose locks really exclude each other; every external call of the model "
+             "(store / resource manager / engine / log / lock acquire and release) is a scheduling point, and the solver decides at which of them the other operation takes over, "
+             "within a preemption budget of 2 (thorough 3): every interleaving at external-call granularity with at most that many preemptions is explored. "
+             "Operations: remove w1, remove w2, realloc w1, realloc w2, dissociate w2, remove node b, create one instance on b, set-node b (delta capacity); w2 sits on node a or b (symbolic); no injected fault")
 cfg["C17"] = {
     "title": "The transaction helper rolls back exactly when a step failed", "design_ref": "DESIGN.md §4 C17",
     "runs": [{"dir": "utils", "quick": ["VerifTxn", "VerifPCR"], "thorough": ["VerifTxn", "VerifPCR"], "samples": 4}],
@@ -145,10 +150,10 @@ cfg["C17"] = {
 }
 cfg["C20"] = {
     "title": "Cluster operations take locks in one global order", "design_ref": "DESIGN.md §4 C20",
-    "runs": [{"dir": CAL, "quick": P("VerifNodeLocks", "n=3,pods=2,inc=3,op=0", "n=3,pods=2,op=1") + P("VerifWorkloadLocks", "ids=3") + P("VerifReallocOp", "fault=0"),
-              "thorough": P("VerifNodeLocks", "n=3,pods=2,inc=2,op=0", "n=3,pods=2,op=1", "n=3,pods=3,inc=3,op=0", "n=4,pods=2,inc=3,op=0", "n=3,pods=2,inc=0,op=0") + P("VerifWorkloadLocks", "ids=3", "ids=4") + P("VerifReallocOp", "fault=0"), "samples": 3}],
-    "bounds": "node universe of 3-4 nodes over 2-3 pods (symbolic pod assignment), include lists of length <= 3 in any order with repeats, or pod-based selection; workload id lists of length <= 4 over 3 ids in any order with repeats; the sequential operation ReallocResource end to end (pod lock, then workload lock)",
-    "outside": "operations whose locking happens inside pool goroutines (create, remove, dissociate, replace, control, send): their lock sequences are schedule-dependent; lock implementations themselves (C18/C19)",
+    "runs": [{"dir": CAL, "quick": P("VerifNodeLocks", "n=3,pods=2,inc=3,op=0", "n=3,pods=2,op=1") + P("VerifWorkloadLocks", "ids=3") + P("VerifReallocOp", "fault=0") + conc((8, 9, 2), (10, 8, 2), (0, 2, 2)),
+              "thorough": P("VerifNodeLocks", "n=3,pods=2,inc=2,op=0", "n=3,pods=2,op=1", "n=3,pods=3,inc=3,op=0", "n=4,pods=2,inc=3,op=0", "n=3,pods=2,inc=0,op=0") + P("VerifWorkloadLocks", "ids=3", "ids=4") + P("VerifReallocOp", "fault=0") + conc((8, 9, 3), (10, 8, 3), (0, 2, 3), (5, 6, 2), (9, 3, 2)), "samples": 3}],
+    "bounds": "node universe of 3-4 nodes over 2-3 pods (symbolic pod assignment), include lists of length <= 3 in any order with repeats, or pod-based selection; workload id lists of length <= 4 over 3 ids in any order with repeats; the sequential operation ReallocResource end to end (pod lock, then workload lock). DEADLOCK FREEDOM of operations whose locking happens inside pool goroutines: pairs of concurrent calls (remove [w1,w2] x remove [w2,w1], dissociate [w2,w1] x remove [w1,w2], remove w1 x realloc w1; thorough: + remove-node x create, remove x realloc) run over blocking locks under bounded symbolic preemption (2, thorough 3): a lock-order inversion shows as a deadlock (hang violation) in some interleaving",
+    "outside": "lock sequences of replace, control, send; more than two concurrent calls; lock implementations themselves (C18/C19)",
     "assumptions": [cal_stubs, "locks are recording models; acquisition never fails"],
 }
 cfg["C21"] = {
@@ -165,11 +170,6 @@ sched_t = P("VerifRemoveOp", "fault=20,nodes=2,sched=lazy,choices=4", "fault=20,
 sched_text = ("Goroutines and ants pool tasks are scheduled cooperatively (a goroutine gives up control only where it blocks - channel receive, select, WaitGroup.Wait, Mutex.Lock - where it spawns, and where it ends) under TWO fixed policies: eager (a spawned goroutine runs at once; harness arguments without sched=) and lazy (the spawning side runs on until it blocks, then the oldest runnable goroutine; sched=lazy); "
               "in the thorough tier the first 2-4 scheduling points with several runnable goroutines are additionally SYMBOLIC choices (choices=n: one explored path per candidate). Sends never block (channels are FIFO queues)")
 node_ops = P("VerifAddNodeOp", "fault=6") + P("VerifRemoveNodeOp", "fault=6") + P("VerifSetNodeOp", "fault=8")
-conc = lambda *pairs: P("VerifConcurrentOps", *[f"a={a},b={b},preempt={k}" for a, b, k in pairs])
-conc_text = ("TWO API calls run concurrently as two goroutines over one world whose locks really exclude each other; every external call of the model "
-             "(store / resource manager / engine / log / lock acquire and release) is a scheduling point, and the solver decides at which of them the other operation takes over, "
-             "within a preemption budget of 2 (thorough 3): every interleaving at external-call granularity with at most that many preemptions is explored. "
-             "Operations: remove w1, remove w2, realloc w1, realloc w2, dissociate w2, remove node b, create one instance on b, set-node b (delta capacity); w2 sits on node a or b (symbolic); no injected fault")
 ledger_assume = [cal_stubs,
     "abstract ledger world: store = set of workload records with one symbolic scalar resource amount each; resource manager = per-node usage with delta/incr semantics (the real plugin arithmetic is verified in C04/C08 and composed by argument only); engine = set of containers with the amount applied",
     "exactly one fallible model call fails, at a symbolic position among all store/plugin/engine calls the operation makes; every call after the injected fault succeeds (compensating steps succeed)",
@@ -191,7 +191,7 @@ cfg["C11"] = {
 }
 
 COB = 'resource/cobalt'
-cob_stubs = common_stubs + "; goroutines in cobalt.call run to completion at the go statement; sync.WaitGroup/Mutex run from real SSA over sequential sync/atomic primitives; sync.Map is an insertion-ordered table; plugins are in-harness models returning fixed answers"
+cob_stubs = common_stubs + "; goroutines in cobalt.call run under the cooperative scheduler (exact channel semantics); sync.WaitGroup/Mutex run from real SSA over sequential sync/atomic primitives; sync.Map is an insertion-ordered table; plugins are in-harness models returning fixed answers"
 cfg["C09"] = {
     "title": "Multi-plugin capacity aggregation is independent of plugin order", "design_ref": "DESIGN.md §4 C09",
     "runs": [{"dir": COB, "inline_go": True, "quick": P("VerifMerge", "p=2,n=1", "p=2,n=2", "p=1,n=2"), "thorough": P("VerifMerge", "p=2,n=1", "p=2,n=2", "p=1,n=2", "p=3,n=1", "p=3,n=2"), "samples": 3}],
@@ -199,8 +199,8 @@ cfg["C09"] = {
     "outside": "values off the grid; rounding of the final division; more than 3 plugins; Go's map iteration order is represented by the plugin permutation; call()'s real goroutine scheduling",
     "assumptions": [cob_stubs],
 }
-cfg["C08"]["runs"].append({"dir": COB, "inline_go": True, "quick": P("VerifManagerLedger", "op=0", "op=1", "op=2"), "thorough": P("VerifManagerLedger", "op=0", "op=1", "op=2"), "samples": 3})
-cfg["C08"]["bounds"] += "; resource-manager layer (cobalt.Manager.Alloc/RollbackAlloc/Realloc/RollbackRealloc/SetNodeResourceUsage with the real call/PCR code) over two model plugins with scalar usage, count<=2, one fault at any plugin call position"
+cfg["C08"]["runs"].append({"dir": COB, "inline_go": True, "quick": P("VerifManagerLedger", "op=0", "op=1", "op=2", "op=0,sched=lazy,choices=3", "op=1,sched=lazy,choices=3", "op=2,choices=3"), "thorough": P("VerifManagerLedger", "op=0", "op=1", "op=2", "op=0,sched=lazy,choices=4", "op=1,sched=lazy,choices=4", "op=2,sched=lazy,choices=4", "op=0,choices=4", "op=1,choices=4", "op=2,choices=4"), "samples": 3})
+cfg["C08"]["bounds"] += "; resource-manager layer (cobalt.Manager.Alloc/RollbackAlloc/Realloc/RollbackRealloc/SetNodeResourceUsage with the real call/PCR code) over two model plugins with scalar usage, count<=2, one fault per plugin method; the plugin goroutines of cobalt.call are scheduled cooperatively (eager, lazy, and 3-4 symbolic scheduling choices: every order in which the plugins answer)"
 cfg["C07"]["runs"].append({"dir": COB, "inline_go": True, "quick": P("VerifMerge", "p=2,n=2", "p=1,n=2"), "thorough": P("VerifMerge", "p=2,n=2", "p=1,n=2", "p=3,n=2"), "samples": 2})
 
 cfg["C16"] = {
@@ -297,15 +297,25 @@ cfg["C27"] = {
                     "natively (replay of counterexamples) the ticker is the real one-second ticker and a hang is detected by a 20 s cap"],
 }
 
+cfg["C28"] = {
+    "title": "A failed node's workloads are reported down", "design_ref": "DESIGN.md §7.5 C28",
+    "runs": [{"dir": "selfmon", "quick": P("VerifSelfmon", "nodes=2,steps=3", "nodes=3,steps=2", "nodes=2,steps=3,sched=lazy"), "thorough": P("VerifSelfmon", "nodes=2,steps=3", "nodes=3,steps=3", "nodes=2,steps=4", "nodes=2,steps=3,sched=lazy", "nodes=2,steps=3,choices=3"), "samples": 2},
+             {"dir": CAL, "inline_go": True, "quick": P("VerifSetNodeDown", "fault=8,wl=3"), "thorough": P("VerifSetNodeDown", "fault=8,wl=3", "fault=10,wl=3,sched=lazy"), "samples": 3}],
+    "bounds": "two halves, both real code, composed by argument. Watcher half (selfmon: withActiveLock, monitor, initNodeStatus, dealNodeStatusMessage under the cooperative scheduler with exact channel semantics): 2-3 nodes, a SYMBOLIC sequence of 2-4 events (a node's heartbeat status disappears, a heartbeat arrives, the watcher becomes active), the watcher active from the beginning or activated later; at idleness every node whose status lapsed - while the watcher was active, or before it became active and still lapsed then - has had SetNode(WorkloadsDown) requested, and no node that never lapsed has. Cluster half (Calcium.SetNode with WorkloadsDown -> setAllWorkloadsOnNodeDown in the ledger world): 3 workloads spread over two nodes (symbolic), no fault or one fault at any store / plugin call: every workload recorded on the node is reported not running and not healthy under its own id/app/entrypoint, workloads of the other node are untouched",
+    "outside": "how the stores produce the status stream (etcd watch / Redis keyspace events: I/O) and TTL expiry itself; the active-watcher election (StartEphemeral is a model that always grants: C26); time.Sleep back-offs; a status write the store refuses (a store failure); 'eventually' is read as 'when every goroutine is idle'",
+    "assumptions": [cal_stubs, "cluster.Cluster (ListPodNodes, GetNodeStatus, NodeStatusStream, SetNode) and store.StartEphemeral are in-harness models in the watcher half; the ledger world of C10/C11 in the cluster half"],
+}
+
 cfg["C35"] = {
     "title": "RPC authentication accepts exactly matching credentials", "design_ref": "DESIGN.md §4 C35 / §7.2",
     "runs": [{"dir": "auth/simple", "quick": P("VerifAuth", "u=2,p=1,same=1", "u=3,p=0,same=1", "u=2,p=1", "u=2,p=1,cu=3,cp=0", "u=1,p=2"), "thorough": P("VerifAuth", "u=2,p=1,same=1", "u=3,p=0,same=1", "u=3,p=2,same=1", "u=2,p=1", "u=2,p=1,cu=3,cp=0", "u=1,p=2", "u=3,p=1", "u=3,p=2,cu=2,cp=2"), "samples": 3}],
-    "bounds": "server and client usernames of 1-3 and passwords of 0-2 SYMBOLIC bytes each (every valid byte value at once: usernames over [0-9A-Za-z._-] and not the reserved header name te, passwords over printable non-blank ASCII), equal or different lengths, client configured with the server's own strings or independently; one unary and one streaming call",
-    "outside": "longer names (the code loops per byte: the length bound is a stated bound); usernames ending in -bin (base64 transport encoding) or that grpc reserves (grpc-*, content-type, user-agent, te, pseudo headers); passwords with blanks (the HTTP/2 spec lets peers strip them); TLS; in the SYMBOLIC run the HTTP/2 transport is a three-line stub (per-RPC credential keys lower-cased as http2_client.getCallAuthData does, values unchanged, standard headers added) - every natively replayed path (samples and counterexamples) ALSO performs both calls over a real in-process grpc-go connection (bufconn) with the real interceptors installed and asserts the stub's verdict equals the real one",
+    "bounds": "server and client usernames of 1-3 and passwords of 0-2 SYMBOLIC bytes each (every valid byte value at once: usernames over [0-9A-Za-z._-] and not the reserved header name te, passwords over printable ASCII including blanks), equal or different lengths, client configured with the server's own strings or independently; one unary and one streaming call",
+    "outside": "longer names (the code loops per byte: the length bound is a stated bound); usernames ending in -bin (base64 transport encoding) or that grpc reserves (grpc-*, content-type, user-agent, te, pseudo headers); control characters in passwords (not valid metadata values; grpc-go was checked natively to deliver leading, trailing and inner blanks unchanged); TLS; in the SYMBOLIC run the HTTP/2 transport is a three-line stub (per-RPC credential keys lower-cased as http2_client.getCallAuthData does, values unchanged, standard headers added) - every natively replayed path (samples and counterexamples) ALSO performs both calls over a real in-process grpc-go connection (bufconn) with the real interceptors installed and asserts the stub's verdict equals the real one",
     "assumptions": [common_stubs + "; strings with symbolic bytes (real strings.ToLower SSA); maps keyed by symbolic strings: linear scan with one solver decision per candidate key", "two metadata keys are the same username iff they are equal ignoring ASCII case (gRPC metadata keys are case-insensitive and travel in lower case)"],
 }
 
 meta = {
+    "C28": "selfmon's watcher (withActiveLock, monitor, initNodeStatus, dealNodeStatusMessage) runs under gosym's scheduler against a model cluster with a symbolic sequence of heartbeat lapses / arrivals / activation; Calcium.SetNode(WorkloadsDown) runs against the ledger world with a symbolic single fault; z3-decided paths prove that every lapsed node gets its workloads-down request and that the request reports every workload recorded on that node as neither running nor healthy.",
     "C27": "discovery/helium's loop, dispatch, Subscribe and Unsubscribe are executed under gosym's cooperative scheduler with exact Go channel semantics; the environment's events (registration change, tick, context end, unsubscribe) are a symbolic sequence and each subscriber is symbolically prompt or slow; z3-decided paths prove convergence of every live prompt subscriber and completion of Unsubscribe, outside one recorded finding (a slow subscriber blocks the dispatcher).",
     "C22": "Two real cluster API calls (RemoveNode, CreateWorkload, SetNode, RemoveWorkload ...) run as two interpreted goroutines over one ledger world with blocking locks under gosym's cooperative scheduler; each external call is a scheduling point and the preemption decisions are symbolic Booleans, so the solver-driven exploration covers every interleaving at external-call granularity within the preemption budget; z3-decided paths prove referential consistency at quiescence, outside one recorded finding (remove-node racing with a deployment on that node).",
     "C13": "The real CreateWorkload pipeline runs against the ledger world whose store model keeps the in-progress marker with the BatchCreateAndDecr contract; an observer evaluates the reported deploy status at every intercepted call; z3-decided paths prove the status stays within [recorded workloads, prior + planned] during the deployment and equals the recorded workloads with no marker left after it returned, for every single-fault position.",
